@@ -15,7 +15,7 @@ RULE = ('case = (input batch-size sequence, target size, #columns, container kin
         'streams pushed through TreeTransform apply/select/batch re-batching options; non-trivial = some input '
         'batch larger and some smaller than the target and total rows not a multiple of the target; distinct = '
         'distinct canonical case JSON'
-        '; also: 2-d array columns, row-dropping / row-duplicating batched functions, fn_batch_size == batch_size, runs of 63..150 tiny input batches')
+        '; also: 2-d array columns, row-dropping / row-duplicating batched functions, fn_batch_size == batch_size, runs of 63..150 tiny input batches, input batches compared before/after and re-batched a second time')
 ASSUMPTIONS = [
     'cell value of row i column j is i*8+j so misalignment, loss, duplication and reordering are all visible',
     'all columns of an input batch have equal length (documented precondition: heterogeneous columns raise)',
@@ -132,11 +132,22 @@ def run_direct(case):
     kw['num_columns'] = ncols
   if pad is not None:
     kw['pad'] = pad
+  before = [[np.array(c).tolist() for c in b] for b in stream]
   try:
     outputs = list(iter_utils.rebatched_args(iter(stream), batch_size=target, **kw))
   except Exception as e:  # pylint: disable=broad-exception-caught
     raise crash(e, f'rebatched_args(sizes={sizes}, batch_size={target}, {kw})') from e
   check_rebatched(outputs, total, target, ncols, kind, pad)
+  # the input batches belong to the caller: a second pass over the same batch objects re-batches the same rows
+  after = [[np.array(c).tolist() for c in b] for b in stream]
+  check(before == after, 'input-batch-modified',
+        lambda: f'rebatched_args(sizes={sizes}, batch_size={target}, {kw}) changed its input batches: {before} -> {after}')
+  if case.get('again'):
+    try:
+      outputs = list(iter_utils.rebatched_args(iter(stream), batch_size=target, **kw))
+    except Exception as e:  # pylint: disable=broad-exception-caught
+      raise crash(e, f'second pass of rebatched_args(sizes={sizes}, batch_size={target}, {kw})') from e
+    check_rebatched(outputs, total, target, ncols, kind, pad, what='second pass over the same batches')
   cl, nt = classify(sizes, target)
   cl.append(f'kind-{kind}')
   if pad is not None:
@@ -175,7 +186,7 @@ def strat_direct(tier):
       target = draw(st.sampled_from([max(1, sum(sizes) - 1), max(1, sum(sizes) // 2 + 1), 100, 16]))
     return {'sizes': sizes, 'target': target, 'ncols': draw(st.integers(1, 4)),
             'kind': draw(st.sampled_from(['list', 'tuple', 'array', 'array2d'])), 'pad': draw(st.booleans()),
-            'num_columns': draw(st.booleans())}
+            'num_columns': draw(st.booleans()), 'again': draw(st.integers(0, 3)) == 0}
   return s()
 
 
